@@ -143,6 +143,7 @@ pub const ALL_GATES: &[&str] = &[
     "vac.find",
     "vac.unlinked",
     "ddl.drop.applied",
+    "ddl.create.begin",
     "ddl.create.applied",
     "rd.open",
     "rd.batch",
@@ -251,6 +252,8 @@ struct State {
     manifest_holder: Option<usize>,
     /// table locks: table id -> thread index
     table_locks: HashMap<String, usize>,
+    /// holder of the CREATE TABLE lock
+    ddl_holder: Option<usize>,
     actors_done: HashSet<usize>,
     n_actors_total: usize,
 }
@@ -337,6 +340,11 @@ fn track_locks(st: &mut State, t: usize, name: &str, detail: &str) {
             let ths: Vec<usize> =
                 (0..st.threads.len()).filter(|i| st.threads[*i].actor == actor).collect();
             st.table_locks.retain(|_, h| !ths.contains(h));
+            if let Some(h) = st.ddl_holder {
+                if ths.contains(&h) {
+                    st.ddl_holder = None;
+                }
+            }
             if let Some(h) = st.manifest_holder {
                 if ths.contains(&h) {
                     st.manifest_holder = None;
@@ -744,6 +752,7 @@ fn enabled_threads(st: &State) -> Vec<usize> {
         if let Some((name, detail, _)) = &t.gate {
             let ok = match name.as_str() {
                 "vm.commit.begin" => st.manifest_holder.is_none(),
+                "ddl.create.begin" => st.ddl_holder.is_none(),
                 "txn.lock.begin" | "ddl.drop.applied" => !st.table_locks.contains_key(detail.as_str()),
                 _ => true,
             };
@@ -929,6 +938,9 @@ async fn run_case_async(case: &Case, dir: &Path) -> Outcome2 {
                 s.current_actor = th.actor;
                 if name == "vm.commit.begin" {
                     s.manifest_holder = Some(t);
+                }
+                if name == "ddl.create.begin" {
+                    s.ddl_holder = Some(t);
                 }
                 let _ = tx.send(());
                 pick
